@@ -41,7 +41,8 @@ ASSUME = ["host ABI is x86-64 System V and gcc implements it (gcc is the referen
           "(inline fn-pointer types in other positions are the subject of C06)"]
 
 OPTS = ("-O0", "-O2")
-BATCH = 8          # cases (signature x direction) per program
+BATCH = 16         # cases (signature x direction) per program
+SINGLES = 3        # mismatching cases per batch that are re-run alone to get a minimal witness (crashes / compile failures always are)
 NCELLS = 16
 
 # name -> (C type, size, class, struct fmt or None)
@@ -348,6 +349,12 @@ def gen_sig(rng):
             params[rng.below(n)] = gen_type(rng)
     r = rng.below(20)
     ret = None if r < 3 else gen_type(rng, 1, 2)
+    if mode in (6, 7) and rng.chance(1, 2):
+        # hidden struct-return pointer on top of the integer register pressure
+        ret = rng.pick([st("i64", "i64", "i64"), st("f64", "f64", "f64"), st(("i32", 5)), st("i64", "f64", "i8"), st(("u8", 17)), st(("f32", 6))])
+        k = rng.range(3, 5)
+        params = [sc("i64") if i < k else p for i, p in enumerate(params)]
+        params[k] = rng.pick([st("i64", "i64"), st("i64", "f64"), st("^i32", "i32"), st("i32", "i32", "i64")])
     return params, ret
 
 
@@ -655,6 +662,7 @@ def run_job(job):
 def _run_job(d, cases):
     first = run_program(os.path.join(d, "batch"), cases)
     out = []
+    budget = SINGLES
     for k, cs in enumerate(cases):
         o = {"case": cs, "evals": 0}
         comp = first["compile"]
@@ -669,10 +677,22 @@ def _run_job(d, cases):
             o["inconclusive"] = "; ".join(first["infra"])[:300] or "no verdict"
             out.append(o)
             continue
+        name = f"direction {cs.dirn} {sig_str(cs.params, cs.ret)}"
+        if comp is not None and comp.accepted and all(v[0] != "crash" for v in vs.values()):
+            if budget <= 0:
+                # ids attribute the mismatch to this case; report it from the batch without the minimising re-run
+                opt, v = [(a, b) for a, b in sorted(vs.items()) if b[0] != "ok"][0]
+                label, i_d, want, got = v[1]
+                o["violation"] = {"key": "value_mismatch", "sig": f"value_mismatch|{cs.dirn}|{sig_str(cs.params, cs.ret)}|{label.split(' (')[0]}",
+                                  "what": f"{name} (C side gcc {opt}, slot {k} of a batch): {label}: expected `{want}`, observed `{got}` (id {i_d})",
+                                  "witness": {"files": first["files"], "case": cs.to_json(), "slot": k, "observed": relevant_lines(v[2], k)}}
+                o["evals"] = len(vs)
+                out.append(o)
+                continue
+            budget -= 1
         # something is off for this case (or the batch did not compile): run it alone
         single = run_program(os.path.join(d, f"single{k}"), [cs])
         sc_ = single["compile"]
-        name = f"direction {cs.dirn} {sig_str(cs.params, cs.ret)}"
         wit = {"files": single["files"], "case": cs.to_json()}
         if sc_.timed_out:
             o["inconclusive"] = f"capy watchdog on {name}"
